@@ -1433,6 +1433,106 @@ func c07raceStream(c *vf.Ctx, i int) {
 	}
 }
 
+// ---- stream first-use-concurrent ------------------------------------------
+// The package's very first calls in a fresh child process, issued by 16
+// goroutines at the same instant (Init runs once per child, before anything
+// else used base58 / bech32): tables or caches that are built lazily are
+// initialised under contention, once per process.  Results are judged by the
+// references afterwards.
+
+type c07firstUse struct {
+	kind string
+	in   []byte
+	hrp  string
+	out  string
+	raw  []byte
+	ok   bool
+}
+
+func c07firstUseInit(t vf.Tier, seed uint64) any {
+	const G = 16
+	out := make([][]c07firstUse, G)
+	var wg sync.WaitGroup
+	start := make(chan struct{})
+	for g := 0; g < G; g++ {
+		wg.Add(1)
+		go func(g int) {
+			defer wg.Done()
+			defer func() { recover() }()
+			r := vf.NewRand(vf.Mix(seed, 0xf07, uint64(g)))
+			<-start
+			for k := 0; k < 24; k++ {
+				b := r.Bytes(r.Intn(40))
+				if k%5 == 0 && len(b) > 2 {
+					b[0], b[1] = 0, 0
+				}
+				switch (k + g) % 4 {
+				case 0:
+					s := base58.Encode(b)
+					back := base58.Decode(s)
+					out[g] = append(out[g], c07firstUse{kind: "b58", in: b, out: s, raw: back})
+				case 1:
+					s := base58.CheckEncode(b, byte(k))
+					raw, ver, err := base58.CheckDecode(s)
+					out[g] = append(out[g], c07firstUse{kind: "b58check", in: append([]byte{byte(k)}, b...), out: s, raw: append([]byte{ver}, raw...), ok: err == nil})
+				case 2:
+					d5 := c07data5(r, r.Intn(40))
+					hrp := c07hrp(r, 1+r.Intn(10))
+					s, err := bech32.Encode(hrp, d5)
+					h2, d2, err2 := bech32.Decode(s)
+					out[g] = append(out[g], c07firstUse{kind: "bech32", in: d5, hrp: hrp, out: s, raw: append([]byte(h2+"|"), d2...), ok: err == nil && err2 == nil})
+				default:
+					c5, err := bech32.ConvertBits(b, 8, 5, true)
+					out[g] = append(out[g], c07firstUse{kind: "convertbits", in: b, raw: c5, ok: err == nil})
+				}
+			}
+		}(g)
+	}
+	close(start)
+	wg.Wait()
+	var all []c07firstUse
+	for _, o := range out {
+		all = append(all, o...)
+	}
+	return all
+}
+
+func c07firstUseCase(c *vf.Ctx, i int) {
+	all, _ := c.Shared.([]c07firstUse)
+	if len(all) == 0 {
+		c.Inconclusive("first-use-results-missing")
+		return
+	}
+	for _, e := range all {
+		c.Evals(1)
+		switch e.kind {
+		case "b58":
+			if want := ref.B58Encode(e.in); e.out != want || !eqBytes(e.raw, e.in) {
+				c.Failf("base58/first-use", "first calls in a fresh process, 16 goroutines at once: Encode(%x)=%q want %q; Decode of it = %x", e.in, e.out, want, e.raw)
+			}
+		case "b58check":
+			if want := ref.B58CheckEncode(e.in[0], e.in[1:]); e.out != want || !e.ok || !eqBytes(e.raw, e.in) {
+				c.Failf("base58check/first-use", "first calls in a fresh process, 16 goroutines at once: CheckEncode(%x, %d)=%q want %q; CheckDecode ok=%v gives %x", e.in[1:], e.in[0], e.out, want, e.ok, e.raw)
+			}
+		case "bech32":
+			want := ref.Bech32Encode(e.hrp, e.in)
+			if len(want) > 90 {
+				continue // over-long strings are C07's other streams' subject
+			}
+			if e.out != want || !e.ok || string(e.raw) != e.hrp+"|"+string(e.in) {
+				c.Failf("bech32/first-use", "first calls in a fresh process, 16 goroutines at once: Encode(%q, %x)=%q want %q; Decode ok=%v gives %q", e.hrp, e.in, e.out, want, e.ok, e.raw)
+			}
+		case "convertbits":
+			want, err := ref.Bech32ConvertBits(e.in, 8, 5, true)
+			if (err == nil) != e.ok || (e.ok && !eqBytes(e.raw, want)) {
+				c.Failf("convertbits/first-use", "first calls in a fresh process, 16 goroutines at once: ConvertBits(%x, 8, 5, true)=%x ok=%v want %x", e.in, e.raw, e.ok, want)
+			}
+		}
+	}
+	c.Count("first_use_results_judged", int64(len(all)))
+	c.Nontrivial(vf.Mix(0xf07, uint64(i), c.Seed))
+}
+
 func init() {
 	register(&vf.Property{
 		ID:    "C07",
@@ -1474,6 +1574,7 @@ func init() {
 			{Name: "convertbits-bip173", N: func(t vf.Tier) int { return t.Sz(420000, 4200000) }, Run: c07convertBIP173Stream},
 			{Name: "convertbits-generic", N: func(t vf.Tier) int { return t.Sz(1024000, 10240000) }, Run: c07convertGenericStream},
 			{Name: "purity-canary", N: func(t vf.Tier) int { return 41 + t.Sz(10000, 100000) }, Run: c07canaryStream},
+			{Name: "first-use-concurrent-race", Race: true, Workers: 1, Shards: 8, Init: c07firstUseInit, N: func(t vf.Tier) int { return 8 }, Run: c07firstUseCase},
 			{Name: "purity-race", Race: true, Workers: 2, N: func(t vf.Tier) int { return t.Sz(6300, 42000) }, Run: c07raceStream},
 		},
 	})
